@@ -17,7 +17,8 @@ CHECKS["C01"] = {
     "level": "exploration",
     "claim": ("Generated-input search: rapid-generated envelopes of all kinds and exhaustive small-alphabet text forms, judged by an independent "
               "canonical form (wire-shape predicate + normalised equality) through the typed decoders and the real TCP receive path (one long-lived connection; before every other envelope a refused "
-              "relative of the previous one - all of its members plus an unknown event - goes through the same connection and must be answered with an error without touching what follows)."),
+              "relative of the previous one - all of its members plus an unknown event - goes through the same connection and must be answered with an error without touching what follows). "
+              "Plus 16 goroutines round-tripping their own generated envelopes at the same time (TestC01Concurrent)."),
     "note": "Trusts encoding/json, the harness's canonical form (norm.go) and the in-memory net.Conn; values are sampled (text forms exhaustive up to the stated length).",
     "technique": "property-based testing (rapid): round-trip + independent wire-shape oracle; exhaustive small-scope enumeration of text forms",
     "rule": ("rapid-generated envelope specs of all 5 kinds (optional fields drawn independently, recursive documents of every "
@@ -34,6 +35,7 @@ CHECKS["C01"] = {
         {"test": "TestC01Text", "kind": "plain"},
         {"test": "TestC01", "kind": "rapid", "shards": 14, "checks": (5000, 60000)},
         {"test": "TestC01TextRapid", "kind": "rapid", "shards": 1, "checks": (5000, 200000)},
+        {"test": "TestC01Concurrent", "kind": "plain", "shards": (2, 8), "timeout": (300, 1500), "gomaxprocs": [16, 8, 16, 4, 16, 8, 16, 4]},
     ],
 }
 
@@ -64,7 +66,7 @@ CHECKS["C02"] = {
               "corpus of valid encodings at every node, lexical mutations (truncation / byte replacement / deletion at every offset, "
               "concatenations, deep nesting), every string of up to 3 (thorough: 4) pieces from a 24-piece alphabet of separators and escapes in each member that carries a "
               "parsed text form (uri, node, media type, event, document URI), rapid-generated byte strings and mutations, native coverage-guided fuzzing in the thorough tier, and 8 goroutines decoding at once "
-              "(typed decoders and TCP transports) inputs whose text forms are new to the process; "
+              "(typed decoders and TCP transports) inputs whose text forms are new to the process, and frames sent by a raw WebSocket peer to a library WebSocket listener (whole-document scalars and null, the corpus, single-point mutations); "
               "oracle: no panic, and whatever is accepted re-encodes and re-decodes to an equal envelope of the same kind, on the typed "
               "decoders and on the real TCP receive path; a live Server must survive the inputs."),
     "note": "Trusts encoding/json and the harness's canonical equality; inputs are sampled/enumerated, not all byte strings.",
@@ -79,6 +81,7 @@ CHECKS["C02"] = {
     "jobs": [
         {"test": "TestC02Replay", "kind": "plain"},
         {"test": "TestC02Text", "kind": "plain", "shards": (4, 12), "timeout": (300, 3000)},
+        {"test": "TestC02WS", "kind": "plain", "shards": (2, 4), "timeout": (300, 1500)},
         {"test": "TestC02Concurrent", "kind": "plain", "shards": (2, 8), "timeout": (300, 3000), "gomaxprocs": [8, 16, 4, 16, 8, 16, 4, 16]},
         {"test": "TestC02Sweep", "kind": "plain", "shards": 16, "timeout": (300, 3000)},
         {"test": "TestC02Lexical", "kind": "plain", "shards": 8, "timeout": (300, 3000)},
